@@ -36,7 +36,7 @@ fn presentation(r: &mut Rng, scratch: &str, n: u64) -> Opts {
         display,
         order,
         count: r.chance(1, 2),
-        update: *r.pick(&[-1i64, 0, 3, 1000, 1_000_000_000]),
+        update: *r.pick(&[-1i64, 0, 3, 120, 1000, 1_000_000_000]),
         log_messages: if r.chance(1, 2) { Some(vec![*r.pick(&FORMATS), *r.pick(&FORMATS), *r.pick(&[4u32, 5, 11, 20, 21])]) } else { None },
         downlink_log: if r.chance(1, 3) { Some(format!("{}/sqmon-dl-{}-{}.log", scratch, std::process::id(), n)) } else { None },
         ..Default::default()
@@ -71,6 +71,12 @@ fn option_pairs(ctx: &Ctx) -> Report {
             o.u = u;
             o.r = rr;
             o.filter = filter.clone();
+        }
+        // a finite expiry limit shared by the pair: nothing is older than 60 s in a run of milliseconds, so the table
+        // must not depend on the refresh interval (-u 120 / 1000 / 10^9 exceed the limit) or on quiet mode
+        if pno % 2 == 1 {
+            a.delete_after = 60;
+            b.delete_after = 60;
         }
         // -O: the observer differs between the two runs of a pair in half of the cases
         let obs_differs = r.chance(1, 2);
